@@ -745,7 +745,7 @@ func runScenario(sc *scenario, tr *hx.Trace) (units int) {
 				case x.Name == "select" || x.Name == "ping" || x.Name == "info" || x.Name == "exists" || x.Name == "hgetall" || x.Name == "hget" ||
 					x.Name == "zrangebyscore" || x.Name == "type" || x.Name == "command" || x.Name == "config" || x.Name == "hmget" || x.Name == "client":
 					kind = "read"
-				case x.Name == "set" && checkpoint.IsBisyncMarkerKey(ks) && strings.HasPrefix(ks, bisyncNS+cpNames[1-i]+":"):
+				case x.Name == "set" && strings.HasPrefix(ks, bisyncNS+cpNames[1-i]+":marker:"):
 					kind = "marker"
 				case strings.HasPrefix(ks, bisyncNS+cpNames[1-i]+":") || strings.HasPrefix(ks, cpNames[1-i]):
 					kind = "own" // bookkeeping of the link that targets this site
@@ -880,6 +880,16 @@ func main() {
 		sc.restart = -1
 		if r.Chance(30) {
 			sc.restart = r.Intn(2)
+		}
+		// the name a link keeps its bookkeeping under: created for a bidirectional link, or adopted from the one-way link
+		// the deployment ran before (the plain checkpoint key, or the per-shard key of a transactional cluster link)
+		switch r.Intn(4) {
+		case 0:
+			cpNames = [2]string{"redis-gunyu-checkpoint", "redis-gunyu-checkpoint-abcdefghijklmnopqrst"}
+		case 1:
+			cpNames = [2]string{"redis-gunyu-checkpoint-bisync:linkab", "redis-gunyu-checkpoint"}
+		default:
+			cpNames = [2]string{"redis-gunyu-checkpoint-bisync:linkab", "redis-gunyu-checkpoint-bisync:linkba"}
 		}
 		bigSite := -1
 		if s == 0 || r.Chance(3) {
